@@ -51,6 +51,9 @@ RULE = ("tables: empty / rectangular / ragged / with empty rows, per table class
         "spell it (digits of any script / hundreds of digits, dangling fraction, units the library converts or not, white space of all "
         "of \\s, junk) against the Lean scanner + unit dispatch (c04.length) and planted as svg:width / svg:height / img width / height "
         "into the generated documents. "
+        "every generated package also with its XML parts re-serialised in each declared encoding (utf-8 / BOM / utf-16 LE,BE / iso-8859-1 / "
+        "windows-1252 / iso-8859-15 / us-ascii with character references) x declaration form x lead-in; every result walked a second time in "
+        "the opposite accessor order and its units a third time (operation sequences on one result); "
         "distinct = distinct (component, input) pairs; non-trivial = non-empty input")
 ASSUMPTIONS = [
     "pathlib.PurePosixPath / os.path.exists / os.path.realpath are the stdlib's (modelled in S2T/Model/Iface.lean, tied here)",
@@ -486,6 +489,10 @@ def _doc_specs(ctx):
         if fmt in D.VALUE_FORMATS:   # sizes as the file spells them: every lexical class, in every format that stores them
             forms = [f for f in V.LENGTH_FORMS if V.xml_safe(f)]
             out += D.value_specs(fmt, forms, per_doc=12 if ctx.thorough else 24)
+        if fmt in D.ZIP_FORMATS:     # the same XML parts in each of their byte forms (encoding declared in the part)
+            out += D.serialisation_specs(fmt, None if ctx.thorough else rng)
+            if ctx.thorough:
+                out += D.serialisation_specs(fmt, rng)
         for _ in range(ctx.n(12, 300)):
             out.append(D.random_spec(rng, fmt, _xml_length))
     return out
@@ -506,6 +513,8 @@ def _check_docs(ctx, violations):
         ctx.case(("doc", json.dumps(spec, sort_keys=True)))
         used = [p["part"] for u in spec["units"] for p in u["pics"]]
         ctx.count(f"results/generated-doc/{spec['fmt']}/{st.split(':')[0]}" + ("/picture-file-placed-several-times" if len(set(used)) < len(used) else ""))
+        if spec.get("xml"):
+            ctx.count(f"results/generated-doc/xml-parts-written-as/{spec['xml'].get('enc')}/{st.split(':')[0]}")
         for u in spec["units"]:
             for p in u["pics"]:
                 for it in ("name", "title", "desc"):
